@@ -9,7 +9,7 @@
   for every flag combination; fuel does not appear (the entry points use `toks.length + 1`,
   `check_width` shows it is always enough).
 -/
-import PyGqlModel.Lemmas.ParseType
+import PyGqlModel.Lemmas.ParseValue
 namespace PyGql.Props.C01
 open PyGql PyGql.Ast PyGql.Parse PyGql.Spec
 
@@ -89,5 +89,98 @@ theorem parseType_complete (fl : Flags) (toks : List Tok) (t : TypeRef) (w : wfT
 theorem parseType_sound_spans (fl : Flags) (toks : List Tok) (t : TypeRef) (h : parseType fl toks = .ok t) :
     Item.SpansAll fl [p .sof, typeV t, p .eof] toks :=
   matches_spans _ _ _ (parseType_sound fl toks t h).2
+
+
+/-! ## standalone values (`parse_value`) -/
+
+/-- SOUNDNESS for values (`parse_value` parses `Value[~Const]`). -/
+theorem parseValue_sound (fl : Flags) (toks : List Tok) (v : Value) (h : parseValue fl toks = .ok v) :
+    wfValue false v = true ∧ Matches fl [p .sof, valueV v, p .eof] toks := by
+  obtain ⟨l', h⟩ := (runAll_ok _ _ _).1 h
+  simp only [parseValueP, bind_ok, expect_ok, pure_ok] at h
+  obtain ⟨sof, s1, ⟨ts, h1, hk1, rfl⟩, t', s2, hty, eof, s3, ⟨ts3, h3, hk3, rfl⟩, hfin⟩ := h
+  cases hfin
+  obtain ⟨w, c⟩ := parseValueLiteral_sound fl _ _ _ _ _ hty
+  simp only at h1 c
+  subst h1
+  rw [h3] at c
+  refine ⟨w, (matches_iff _ _ _).2 ⟨l', ?_⟩⟩
+  simp [Item.checkAll, Item.check, cls_const hk1 rfl, c, cls_const hk3 rfl]
+
+/-- COMPLETENESS (exact) for values. -/
+theorem parseValue_complete (fl : Flags) (toks : List Tok) (v : Value) (w : wfValue false v = true)
+    (h : Matches fl [p .sof, valueV v, p .eof] toks) : parseValue fl toks = .ok v := by
+  obtain ⟨l', h⟩ := (matches_iff _ _ _).1 h
+  have hwid := checkAll_width fl _ _ _ _ _ h
+  simp only [checkAll_cons, checkAll_nil, check_tok] at h
+  obtain ⟨l1, ts1, ⟨sof, rfl, hc1, rfl⟩, l2, ts2, hty, l3, ts3, ⟨eof, rfl, hc3, rfl⟩, hfin⟩ := h
+  cases hfin
+  have hw : width (valueV v) ≤ (l1 :: ts1).length + 1 := by
+    simp [Item.yieldAll] at hwid; simp [width]; omega
+  have c := parseValueLiteral_complete fl _ false v l1 l2 ts1 [l'] w hw hty
+  apply (runAll_ok _ _ _).2
+  refine ⟨l', ?_⟩
+  simp only [List.length_cons] at c ⊢
+  simp [parseValueP, bind_eq, expect_pos (cls_kind hc1), c, expect_pos (cls_kind hc3), pure_eq]
+
+/-- the token language of `parse_value` is exactly the set of lists matched by a well-formed value -/
+theorem parseValue_accepts_iff (fl : Flags) (toks : List Tok) :
+    (∃ v, parseValue fl toks = .ok v) ↔ ∃ v, wfValue false v = true ∧ Matches fl [p .sof, valueV v, p .eof] toks :=
+  ⟨fun ⟨v, h⟩ => ⟨v, parseValue_sound fl toks v h⟩, fun ⟨v, w, h⟩ => ⟨v, parseValue_complete fl toks v w h⟩⟩
+
+/-- the token language of `parse_type` is exactly the set of lists matched by a well-formed type -/
+theorem parseType_accepts_iff (fl : Flags) (toks : List Tok) :
+    (∃ t, parseType fl toks = .ok t) ↔ ∃ t, wfType t = true ∧ Matches fl [p .sof, typeV t, p .eof] toks :=
+  ⟨fun ⟨t, h⟩ => ⟨t, parseType_sound fl toks t h⟩, fun ⟨t, w, h⟩ => ⟨t, parseType_complete fl toks t w h⟩⟩
+
+/-! ## documents (`parse`) — full statements, and what is proved of them -/
+
+/-- FULL STATEMENT (soundness for documents, all 8 flag combinations) -/
+def ParseSoundDocument : Prop :=
+  ∀ (fl : Flags) (toks : List Tok) (d : Document), parseDocument fl toks = .ok d →
+    wfDocument fl d = true ∧ Matches fl [documentV d] toks
+
+/-- FULL STATEMENT (exact completeness for documents, all 8 flag combinations) -/
+def ParseCompleteDocument : Prop :=
+  ∀ (fl : Flags) (toks : List Tok) (d : Document), wfDocument fl d = true → Matches fl [documentV d] toks →
+    parseDocument fl toks = .ok d
+
+/-- `parse_sound` restricted to the two sub-grammars proved in full (values and types, every flag combination).
+    MISSING for `ParseSoundDocument`: the same inversion argument for selections / operations / fragments /
+    type-system definitions (the lemmas `anyLoop_sound`, `check_*`, `*_ok` are the ones needed; `manyLoop`,
+    `delimLoop`, `directivesLoop` need their analogues).  Meanwhile the document statement is EVALUATED by the
+    compiled model on its own output for every accepted document of the correspondence (`spec` flag of the
+    driver op `parse`, corr/C02_spans.py) — a test, not a proof. -/
+theorem parse_sound_partial (fl : Flags) (toks : List Tok) :
+    (∀ v, parseValue fl toks = .ok v → wfValue false v = true ∧ Matches fl [p .sof, valueV v, p .eof] toks) ∧
+    (∀ t, parseType fl toks = .ok t → wfType t = true ∧ Matches fl [p .sof, typeV t, p .eof] toks) :=
+  ⟨parseValue_sound fl toks, parseType_sound fl toks⟩
+
+/-- `parse_complete` restricted to values and types (every flag combination); MISSING: documents, as above. -/
+theorem parse_complete_partial (fl : Flags) (toks : List Tok) :
+    (∀ v, wfValue false v = true → Matches fl [p .sof, valueV v, p .eof] toks → parseValue fl toks = .ok v) ∧
+    (∀ t, wfType t = true → Matches fl [p .sof, typeV t, p .eof] toks → parseType fl toks = .ok t) :=
+  ⟨parseValue_complete fl toks, parseType_complete fl toks⟩
+
+/-! ## non-vacuity -/
+
+private def tk (k : TokKind) (s e : Nat) (v : Text := []) : Tok := { kind := k, start := s, stop := e, value := v }
+
+/-- `[A!]` : SOF [ A ! ] EOF -/
+private def toksT : List Tok :=
+  [tk .sof 0 0, tk .bracketL 0 1, tk .name 1 2 [65], tk .bang 2 3, tk .bracketR 3 4, tk .eof 4 4]
+
+example : ∃ t, parseType {} toksT = .ok t ∧ wfType t = true ∧ Matches {} [p .sof, typeV t, p .eof] toksT := by
+  refine ⟨.list (.nonNull (.named ⟨⟨[65], some (1, 2)⟩, some (1, 2)⟩) (some (1, 3))) (some (0, 4)), rfl, rfl, rfl⟩
+
+/-- `[1 {a: $b}]` -/
+private def toksV : List Tok :=
+  [tk .sof 0 0, tk .bracketL 0 1, tk .int 1 2 [49], tk .curlyL 3 4, tk .name 4 5 [97], tk .colon 5 6,
+   tk .dollar 7 8, tk .name 8 9 [98], tk .curlyR 9 10, tk .bracketR 10 11, tk .eof 11 11]
+
+example : (parseValue {} toksV).toBool = true := by decide
+example : (parseValue {} (toksV.take 9)).toBool = false := by decide
+/-- constant position: `$b` is rejected (`Value[Const]`) -/
+example : wfValue true (.list [.var ⟨⟨[98], none⟩, none⟩] none) = false := by decide
 
 end PyGql.Props.C01
